@@ -155,6 +155,8 @@ type PackArg struct {
 	Legacy    bool    `json:"legacy,omitempty"`    // use package-level slug.Pack(src, w, deref)
 	Roundtrip bool    `json:"roundtrip,omitempty"`
 	Reuse     bool    `json:"reuse,omitempty"` // the same *Packer first packs the fixed tree <W>/pre
+	PreSrc    string  `json:"pre_src,omitempty"`   // with Reuse: pack this directory first instead (its nodes are part of Nodes)
+	AllowRel  string  `json:"allow_rel,omitempty"` // AllowSymlinkTarget with a RELATIVE entry (relative to the root of each operation)
 	UID       int     `json:"uid,omitempty"`
 	// writer faults (C12)
 	FailAt    int  `json:"fail_at,omitempty"` // 0 = none; N>0: the writer fails once N-1 bytes were accepted
@@ -253,7 +255,10 @@ func runPack(arg PackArg) (out PackOut) {
 	if arg.AllowOut {
 		opts = append(opts, slug.AllowSymlinkTarget(filepath.Join(W, "out")))
 	}
-	if arg.Reuse {
+	if arg.AllowRel != "" {
+		opts = append(opts, slug.AllowSymlinkTarget(arg.AllowRel))
+	}
+	if arg.Reuse && arg.PreSrc == "" {
 		BuildTree(W, []TNode{{Path: "pre/f", Kind: "file", Body: "12345"}, {Path: "pre/sub/g", Kind: "file", Body: "678"},
 			{Path: "pre/sub/ok", Kind: "link", Target: "../f"}, {Path: "pre/sub/a", Kind: "link", Target: "../a"}, {Path: "pre/a", Kind: "file", Body: "pa"},
 			{Path: "pre/l", Kind: "link", Target: "a"}, {Path: "pre/d/l", Kind: "link", Target: "../a"}, {Path: "pre/zz", Kind: "link", Target: "a"}})
@@ -274,7 +279,11 @@ func runPack(arg PackArg) (out PackOut) {
 			var p *slug.Packer
 			p, err = slug.NewPacker(opts...)
 			if err == nil && arg.Reuse {
-				p.Pack(filepath.Join(W, "pre"), io.Discard)
+				pre := filepath.Join(W, "pre")
+				if arg.PreSrc != "" {
+					pre = strings.ReplaceAll(arg.PreSrc, "<W>", W)
+				}
+				p.Pack(pre, io.Discard)
 			}
 			if err == nil {
 				meta, err = p.Pack(src, fw)
